@@ -9,6 +9,7 @@
 //!        s push_param(item) | t push_param(tuple: (u64,i) / (i,u64,i) / (i,i,i)) | v push_param(Vec<item>)
 //!        | m push_param(HashMap<String,item>) | n push_param(Vec<(u64,item)>) | p push_params(&[item])
 //!        | q push_param2..5 | g push_param((&[u8; 300000], item)) | o push_old_param(Param) (single UnixFd)
+//!        | w push_variant(item) | z push_param(Vec<Variant<item>>)
 //!   R<b> reset   D<b> drop body   S<b> conn.send.send_message(&msg).write_all(); the peer reads the
 //!        message off the raw socket (recvmsg, room for 253 descriptors per call) and keeps it "in flight"
 //!   I<cs>:<idxs>  the peer crafts a message (signature hhh.., indices idxs) carrying dups of slots cs
@@ -184,6 +185,7 @@ fn alignment_of(c: u8) -> usize {
     match c {
         b'y' => 1,
         b't' | b'(' | b'{' => 8,
+        b'v' => 1,
         _ => 4,
     }
 }
@@ -244,6 +246,16 @@ fn walk(sig: &[u8], si: usize, buf: &[u8], off: &mut usize, bo: ByteOrder, out: 
                 walk(sig, j, buf, off, bo, out)?;
                 j = type_end(sig, j);
             }
+        }
+        b'v' => {
+            // signature (u8 length, text, NUL), then the value
+            let l = *buf.get(*off)? as usize;
+            let inner = buf.get(*off + 1..*off + 1 + l)?.to_vec();
+            *off += 1 + l + 1;
+            if inner.is_empty() {
+                return None;
+            }
+            walk(&inner, 0, buf, off, bo, out)?;
         }
         _ => return None,
     }
@@ -435,6 +447,12 @@ fn do_push(w: &mut World, b: usize, shape: char, its: &[It]) -> String {
             // the old API owns its values: a clone of the variable (dropped again right after the call)
             let p = Param::Base(Base::UnixFd(hnd[h].as_ref().unwrap().clone()));
             body.push_old_param(&p)
+        }
+'w' if n == 1 => body.push_variant(mk(&its[0])),
+        'z' => {
+            let v: Vec<rustbus::wire::marshal::traits::Variant<Item>> =
+                its.iter().map(|it| rustbus::wire::marshal::traits::Variant(mk(it))).collect();
+            body.push_param(&v)
         }
         'm' => {
             let mut m: HashMap<String, Item> = HashMap::new();
@@ -738,6 +756,18 @@ fn parse_shape(msg: &MarshalledMessage, starts: &[usize], pi: usize, sh: &ShapeR
         }
         ('g', _) => vec![<(&[u8], UnixFd)>::unmarshal(&mut at(pi)?).map_err(e)?.1],
         ('v', _) => <Vec<UnixFd>>::unmarshal(&mut at(pi)?).map_err(e)?,
+        ('w', _) => {
+            let v = <rustbus::wire::unmarshal::traits::Variant>::unmarshal(&mut at(pi)?).map_err(e)?;
+            vec![v.get::<UnixFd>().map_err(e)?]
+        }
+        ('z', _) => {
+            let vs = <Vec<rustbus::wire::unmarshal::traits::Variant>>::unmarshal(&mut at(pi)?).map_err(e)?;
+            let mut out = Vec::new();
+            for v in vs {
+                out.push(v.get::<UnixFd>().map_err(e)?);
+            }
+            out
+        }
         ('n', _) => <Vec<(u64, UnixFd)>>::unmarshal(&mut at(pi)?).map_err(e)?.into_iter().map(|x| x.1).collect(),
         ('m', _) => {
             let mut m = <HashMap<String, UnixFd>>::unmarshal(&mut at(pi)?).map_err(e)?;
